@@ -116,6 +116,45 @@ def map_value_ends_in_record(node, table, seen=()):
     return False
 
 
+def ends_in_empty_record(node, table, depth=0):
+    """The last thing written for a value of this type is a field-less record reached through last fields only."""
+    n = M.deref(node, table)
+    if n["k"] != "record" or depth > 30:
+        return False
+    if not n["fields"]:
+        return True
+    return ends_in_empty_record(n["fields"][-1]["type"], table, depth + 1)
+
+
+def empty_record_finding_shape(node, table, seen=()):
+    """Shapes of F-JSON-EMPTY-RECORD: the whole datum ends in a field-less record (chain of last fields from the top), or
+    a map value does (a record, possibly via a union, whose chain of last fields ends in one)."""
+    if ends_in_empty_record(node, table):
+        return True
+
+    def walk(n, seen):
+        k = n["k"]
+        if k == "ref":
+            if n["name"] in seen:
+                return False
+            return walk(table[n["name"]], seen + (n["name"],))
+        if k == "map":
+            v = M.deref(n["values"], table)
+            cands = [v] if v["k"] != "union" else [M.deref(b, table) for b in v["branches"]]
+            if any(ends_in_empty_record(c, table) for c in cands):
+                return True
+            return walk(n["values"], seen)
+        if k == "array":
+            return walk(n["items"], seen)
+        if k == "union":
+            return any(walk(b, seen) for b in n["branches"])
+        if k == "record":
+            return any(walk(f["type"], seen + (n["name"],)) for f in n["fields"])
+        return False
+
+    return walk(node, seen)
+
+
 def record_reuse_substring(node, table, include_inline=False):
     """A record that is used again by name and has a field whose type string (primitive or reference)
     contains the record's full name as a substring: the grammar builder's `name in field["type"]` test
@@ -192,9 +231,12 @@ class C15(Check):
                 return self.named_default_case(d)
             if d.p(0.05):
                 return self.nullable_top_case(d)
-            ir, table, js = gen.build_schema(d, feat)
+            # recursive types at a low rate: deep data and recursion through collections are known findings (absorbed by
+            # their matchers), shallow data works and is asserted
+            f = gen.Features(**dict(feat.__dict__, recursion=True, max_depth=3)) if d.p(0.12) else feat
+            ir, table, js = gen.build_schema(d, f)
             gen.check_truth(ir, table, js)
-            dg = JsonData(d, feat, table)
+            dg = JsonData(d, f, table)
             n = d.weighted([(1, 5), (2, 3), (3, 2), (0, 1)])
             return {"schema": js, "records": [dg.gen(ir, 5) for _ in range(n)], "write_union_type": not d.p(0.15), "parsed": d.p(0.3), "absent_seed": d.rng(0, 63)}
 
@@ -437,11 +479,15 @@ class C15(Check):
             node, table = M.resolve(case["schema"])
             return node["k"] == "record" and any("default" in f and nested_union(f["type"], table, top=True) for f in node["fields"])
 
+        def empty_shape(case, message):
+            node, table = M.resolve(case["schema"])
+            return empty_record_finding_shape(node, table)
+
         def reuse(case, message):
             node, table = M.resolve(case["schema"])
             return record_reuse_substring(node, table)
 
-        return {"record-reuse-substring": reuse, "recursive": deep_recursion, "empty-record": has("empty-record"), "map-value-ends-in-record": map_nested, "default-with-nested-union": default_nested_union}
+        return {"record-reuse-substring": reuse, "recursive": deep_recursion, "empty-record": empty_shape, "map-value-ends-in-record": map_nested, "default-with-nested-union": default_nested_union}
 
 
 class JsonData(gen.DataGen):
